@@ -14,7 +14,13 @@ def apply(F):
     F.wrap(M, r'pub struct EncappedKey\b')
     S = M + [r'impl Serializable for EncappedKey\b']
     F.insert_in(M, S[-1], '                closed spec fn ser(&self) -> Bytes { self.0.ser() }')
-    F.contract(S, r'fn write_exact\b', attrs=['#[verifier::external_body]'], discharged_by='kani:write_exact_encapped')
+    F.hoist(S, r'fn write_exact\b', 'write_exact_encapped_body', 'EncappedKey', trait='Serializable')
+    F.contract(S, r'fn write_exact\b', attrs=['#[verifier::external_body]'], discharged_by='N7 delegation to the verified write_exact_encapped_body')
+    F.contract(M, r'fn write_exact_encapped_body\b', clauses='''
+                requires old(buf)@.len() == tnum::<<EncappedKey as Serializable>::OutputSize>(),
+                ensures /*@C12*/ final(buf)@ == this.ser(),
+''')
+    F.wrap(M, r'fn write_exact_encapped_body\b')
     F.wrap(M, S[-1])
     D = M + [r'impl Deserializable for EncappedKey\b']
     F.insert_in(M, D[-1], '                // ghost: an encapsulated key is a serialized public key (RFC 9180 §4.1)\n                open spec fn de_valid(b: Bytes) -> bool { <<$dhkex as DhKeyExchange>::PublicKey as Deserializable>::de_valid(b) }')
